@@ -199,17 +199,17 @@ fn meta(prop: &str) -> (&'static str, String, Value, Vec<String>) {
         ),
         "sd-sim" => (
             if prop == "C13" { "fault_enumeration" } else { "exploration" },
-            format!("one case = one simulated session of the real SdCard driver against SimCard (byte-level SPI-mode card model: CMD0/8/9/12/13/17/18/24/25/55/58/59, ACMD23/41, R1/R1b/R2/R3/R7, data/response/error tokens, bit-serial CRC-7/CRC-16, v1-SC / v2-SC / v2-HC, CSD layouts 1.0 and 2.0 with drawn C_SIZE / C_SIZE_MULT / READ_BL_LEN) on SimSpi/SimDelay: card kind, capacity, CRC option, acquire_retries, N_CR 0..8, data-token delay, busy periods up to the driver's budgets, ACMD41 rounds, bad first CMD0 answers, N_BR gap after the stop token and a call sequence (single/multi-block reads and writes at block 0 / last block / random, num_blocks, num_bytes, get_card_type, mark_card_uninit) are drawn from the run's PRNG. {} non-trivial = more than four commands reached the card{}; distinct = hash of per-call results, bytes exchanged and the command sequence", match prop {
+            format!("one case = one simulated session of the real SdCard driver against SimCard (byte-level SPI-mode card model: CMD0/8/9/12/13/17/18/24/25/55/58/59, ACMD23/41, R1/R1b/R2/R3/R7, data/response/error tokens, bit-serial CRC-7/CRC-16, v1-SC / v2-SC / v2-HC, CSD layouts 1.0 and 2.0 with drawn C_SIZE / C_SIZE_MULT / READ_BL_LEN) on SimSpi/SimDelay: card kind, capacity, CRC option, acquire_retries (0, 1, 5, 50), N_CR 0..8, data-token delay, busy periods up to the driver's budgets, ACMD41 rounds, bad first CMD0 answers, a card that sleeps through the first CMD0s, OCR bits the driver must ignore, the don't-care bits of the data-response token, N_BR gap after the stop token and a call sequence (single/multi-block reads and writes at block 0 / last block / random, num_blocks, num_bytes, get_card_type, mark_card_uninit, another card put into the slot, hand-over of the initialised card to a new driver object with mark_card_as_init) are drawn from the run's PRNG. {} non-trivial = more than four commands reached the card{}; distinct = hash of per-call results, bytes exchanged and the command sequence", match prop {
                 "C12" => "Oracle: read data == card memory, card memory after writes == exactly the addressed blocks (twin map), capacity == CSD by the layout the card carries, card kind as configured; every call on a healthy card must succeed.",
-                "C13" => "One adversary per session, placed by the PRNG: 1-bit / 2-bit / burst<=16 flips in data or CRC of the n-th block, card silent / busy-forever / garbage from byte k, rejected data block (CRC-error / write-error token), CMD13 status error, non-0xFE token, SPI transaction error, beyond-budget latency. Oracle: detectable corruption with CRC on => Err; rejected write / status error / bad token / bus error => Err in both CRC modes; bytes exchanged per call <= bound computed from the driver's retry constants (simulator aborts at bound+1 = hang); after a failed initialisation the next call starts with CMD0; after power-cycling the card model and mark_card_uninit, read and write succeed and are correct.",
-                _ => "Oracle: the checker inside the card (frame start/transmission bits, known index, CRC-7 with end bit in both CRC modes, no frame while the card signals busy except CMD0/CMD12, ACMD directly after CMD55, data commands only after CMD0 -> CMD8 -> ACMD41-ready (-> CMD58 on v2), data tokens 0xFE / 0xFC / 0xFD, 512+2 bytes, valid CRC-16 when CRC is on, CMD12 ends a multi-block read, stop token ends a multi-block write, CMD12 after a rejected block) must record nothing, also in the calls that follow an injected error.",
+                "C13" => "One adversary per session, placed by the PRNG: 1-bit / 2-bit / burst<=16 flips in data or CRC of the n-th block, card silent / busy-forever / garbage from byte k, rejected data block (CRC-error / write-error token), CMD13 status error, non-0xFE token, SPI transaction error (also inside the CMD0 retry path of a card that wakes up late), beyond-budget latency, a card that refuses CRC_ON_OFF combined with bit flips. Oracle: detectable corruption with CRC on => Err; rejected write / status error / bad token / bus error => Err in both CRC modes; bytes exchanged per call <= bound computed from the driver's retry constants (simulator aborts at bound+1 = hang); after a failed initialisation the next call starts with CMD0; after power-cycling the card model and mark_card_uninit, read and write succeed and are correct.",
+                _ => "Oracle: the checker inside the card (frame start/transmission bits, known index, CRC-7 with end bit in both CRC modes, no frame while the card signals busy (CMD12 inside an open read excepted; CMD0 excepted only once a call has failed), ACMD directly after CMD55, data commands only after CMD0 -> CMD8 -> ACMD41-ready (-> CMD58 on v2), data tokens 0xFE / 0xFC / 0xFD, 512+2 bytes, valid CRC-16 when CRC is on, CMD12 ends a multi-block read, stop token ends a multi-block write, CMD12 after a rejected block) must record nothing, also in the calls that follow an injected error.",
             }, if prop == "C13" { " and the adversary fired" } else { "" }),
             serde_json::json!({"real": ["SdCard / SdCardInner (acquire, card_command, read_data, write_data, read/write single and multi, read_csd, wait_not_busy, Delay)", "proto.rs (crc7, crc16, CsdV1, CsdV2)"], "stub": ["SPI bus (SimSpi)", "delay provider (SimDelay, advances simulated time only)", "the SD card (SimCard)"], "trusted": ["SimCard protocol model and checker, bit-serial CRCs (sdcard_model.rs)"]}),
             vec!["the card model is my reading of the SD Physical Layer Simplified Specification chapter 7; real hardware timing and electrical behaviour are outside it".to_string(), "C14 judgement is suspended while a wire-level adversary (silent / busy / garbage) is active or after an SPI transaction error, because the host cannot know the card's state then; it resumes after the card is power-cycled".to_string()],
         ),
         "mount" => (
             "exploration",
-            "one case = one device built by the independent formatter (all combinations of 1..128 blocks/cluster, reserved blocks, 1-2 FATs, root entry counts, 16/32-bit total fields, partition slots 0-3 and offsets, cluster counts at and around 4085 / 65525, FAT32 root anywhere, FSInfo position) either mounted as is - the library must find exactly the formatter's tree through a fresh mount (names, sizes, attributes, contents), a FAT12-sized volume must be refused - or with stored-byte corruption of its MBR / boot sector / FSInfo sector (each numeric field set to 0, 1, 2, max, max-1, high bit, random; 1..64 random bit flips; whole random sectors with and without signatures) and then mounted under catch_unwind with overflow checks on: Ok or Err, never a panic; non-trivial = every case; distinct = hash of geometry, mutation list and outcome".to_string(),
+            "one case = one device built by the independent formatter (all combinations of 1..128 blocks/cluster, reserved blocks, 1-2 FATs (and 3-4 in one volume of eight), root entry counts, 16/32-bit total fields, partition slots 0-3 and offsets, cluster counts at and around 4085 / 65525, FAT32 root anywhere, FSInfo position) either mounted as is - the library must find exactly the formatter's tree through a fresh mount (names, sizes, attributes, contents), a FAT12-sized volume must be refused - or with stored-byte corruption of its MBR / boot sector / FSInfo sector (each numeric field set to 0, 1, 2, max, max-1, high bit, random; 1..64 random bit flips; whole random sectors with and without signatures) and then mounted under catch_unwind with overflow checks on: Ok or Err, never a panic; non-trivial = every case; distinct = hash of geometry, mutation list and outcome".to_string(),
             serde_json::json!({"real": ["VolumeManager::open_volume/open_raw_volume", "fat::parse_volume", "Bpb", "InfoSector", "directory walk and file reads of the fresh mount"], "stub": ["block device (read-only image)", "clock"], "trusted": ["mkfs.rs formatter", "fatspec.rs reader"]}),
             vec!["nothing is demanded of later calls on a volume mounted from corrupted sectors (as the statement says)".to_string()],
         ),
